@@ -73,6 +73,9 @@ def defaultIfEmpty (d : Data) (s : Stream) : Stream :=
   if s.1 = [] ∧ s.2 = .complete then ([d], .complete) else s
 
 def ignoreElements (s : Stream) : Stream := ([], s.2)
+/-- `time_interval` with the durations abstracted to `()`: one per item after the first, one more at completion -/
+def timeInterval (s : Stream) : Stream :=
+  ((s.1.drop 1).map (fun _ => Data.unit) ++ (if s.1 ≠ [] ∧ s.2 = .complete then [Data.unit] else []), s.2)
 def startWith (ys : List Data) (s : Stream) : Stream := (ys ++ s.1, s.2)
 def first (s : Stream) : Stream := take 1 s
 def last (s : Stream) : Stream := takeLast 1 s
